@@ -59,6 +59,7 @@ def spell(code, W, ns):
         "list[A]|B": lambda: list[A] | B, "tU[list[A],B]": lambda: typing.Union[list[A], B], "list[A]|None": lambda: list[A] | None,
         "Opt[list[A]]": lambda: typing.Optional[list[A]], "(list[A],B)": lambda: (list[A], B),
         "Ex[A]|None": lambda: OT.Exactly[A] | None, "None|Ex[A]": lambda: None | OT.Exactly[A], "Opt[Ex[A]]": lambda: typing.Optional[OT.Exactly[A]],
+        "type[A|B]": lambda: type[A | B], "type[tU[A,B]]": lambda: type[typing.Union[A, B]], "bare Type": lambda: typing.Type, "bare type": lambda: type,
         "'Text'": lambda: "Text", "'Text|Counter'": lambda: "Text | Counter", "'Opt[List]'": lambda: "typing.Optional[List]",
         "dict[A,B]": lambda: dict[A, B], "Dict[A,B]": lambda: typing.Dict[A, B],
         "type[A]": lambda: type[A], "Type[A]": lambda: typing.Type[A],
@@ -80,6 +81,7 @@ PAIRS = [
     ("'Text'", "A"), ("'Text|Counter'", "A|B"), ("'Opt[List]'", "Opt[A]"),
     ("list[A]|B", "tU[list[A],B]"), ("list[A]|None", "Opt[list[A]]"), ("list[A]|B", "(list[A],B)"),
     ("Ex[A]|None", "Opt[Ex[A]]"), ("None|Ex[A]", "Opt[Ex[A]]"),
+    ("type[A|B]", "type[tU[A,B]]"), ("bare Type", "bare type"),
     ("Ann['A']", "A"), ("type['A']", "type[A]"), ("type[Ann[A]]", "type[A]"), ("Opt[Ann[A]]", "Opt[A]"),
     ("Opt[A]", "Opt['A']"), ("tU[A,B]", "tU['A',B]"), ("list[A]", "List['A']"), ("list[A]", "list['A']"), ("(A,B)", "('A',B)"),
     ("Lit[0,1]", "Lit[1,0]"), ("Lit[True,1]", "Lit[1,True]"), ("Lit[False,2]", "Lit[2,False]"), ("Lit[0,'a']", "Lit['a',0]"), ("Lit[1,2,3]", "Lit[3,1,2]"),
@@ -156,7 +158,7 @@ def make_run(W, shape, known_active=None):
             ps += [("{K0():K1()}", lambda: {W.inst[0]: W.inst[1]}), ("{K1():K0()}", lambda: {W.inst[1]: W.inst[0]}), ("{}", dict)]
         if "Lit" in sa or sur == "int":
             ps += [(repr(v), (lambda v=v: v)) for v in (0, 1, 2, 3, 4, "a", "b", True, 1.0)]
-        if "ype[" in sa or sur == "type":
+        if "ype" in sa or sur == "type":
             ps += [("K0", lambda: K[0]), ("K1", lambda: K[1]), ("K2", lambda: K[2]), ("object", lambda: object), ("int", lambda: int)]
         return ps
 
